@@ -120,24 +120,6 @@ def run_case(case: dict[str, Any]) -> dict[str, Any]:
     w = run_world(desc)
     ix = Index(w)
     viol = oracle_convergence(w, ix)
-    # A pause closes the watch stream: the echo of a write made shortly before or during it never arrives, the open cycle goes on on a
-    # stale view after the consistency timeout -- exactly the echo delay this check assumes away (see ASSUMPTIONS): such a cycle may leave
-    # a record it could not see. Only objects written to in that window are exempted, and only from 'records-left'.
-    pauses: list[tuple[float, float]] = []
-    tp = None
-    for e in w.events:
-        if e['k'] == 'note' and e['what'] == 'toggle':
-            if e.get('to') is True and tp is None:
-                tp = e['t']
-            elif e.get('to') is False and tp is not None:
-                pauses.append((tp, e['t']))
-                tp = None
-    if tp is not None:
-        pauses.append((tp, float('inf')))
-    ct = float((desc.get('settings') or {}).get('persistence__consistency_timeout', 5.0))
-    blind = {r.landed_uid for r in ix.writes if r.client.startswith('op') and any(a - ct <= r.t <= b for a, b in pauses)}
-    echo_lost = [v for v in viol if v['mech'] == 'records-left' and v['msg'].split(':')[0] in blind]
-    viol = [v for v in viol if v not in echo_lost]
     for s in Stall.take_hits():
         viol.append({'mech': 'stall', 'msg': 'event loop stalled', 'witness': s})
     cov: dict[str, int] = {'quiescent_runs': int(bool(w.quiesced)), 'kill_runs': int(bool(ix.kills)), 'objects_checked': len(ix.uids) if w.quiesced else 0}
@@ -186,7 +168,6 @@ def run_case(case: dict[str, Any]) -> dict[str, Any]:
                 viol.append({'mech': 'downtime-change-not-accumulated', 'msg': f'{uid}: the changes made during one downtime were handled in {len(closes)} update cycles', 'witness': None})
     cov['downtime_edit_runs'] = int(edits_in_down > 0)
     cov['accumulated_change_checks'] = acc
-    cov['echo_lost_to_pause'] = len(echo_lost)
     cov['paused_runs'] = int(any(e['k'] == 'note' and e['what'] == 'toggle' and e.get('to') is True for e in w.events))
     cov['worker_limited_runs'] = int(bool((desc.get('settings') or {}).get('queueing__worker_limit')))
     changing = [c for c in ix.calls if c['kind'] in CHANGING]
